@@ -37,7 +37,9 @@ MANIFEST = {
                  "pipeline stage models; end-to-end and per-stage correspondence",
     "text": "The reference is a Lean definition (Sem.run) that is executed on every generated program and compared with "
             "ProbLog's reported instances, probabilities and inconsistent-evidence decision. Theorems about the stage "
-            "models (builder C11, cycle breaking/Clark C09, d-DNNF evaluation C10) are composed downstream of the grounder; "
+            "models (builder C11, cycle breaking = perfect model C09_breakCycles_correct, Clark C09, d-DNNF loader/evaluator "
+            "C10) are composed downstream of the grounder (C01_pipeline_downstream: the evaluator's answer is the weight of the "
+            "consistent valuations of the acyclic ground program in which the query holds, normalised by the evidence); "
             "the tabled grounder itself is tied extensionally per generated program (not proved for all programs).",
     "note": "Trusted: Lean kernel + standard axioms; the harness's first-order instantiation (spine.reference); Sem as the "
             "meaning of 'distribution semantics'. The engine (engine_stack.py/eval_nodes.py) is not modelled: agreement is "
@@ -176,6 +178,11 @@ def run(ctx):
                 "compound node and at least one probabilistic choice")
     ctx.proof_phase(MODULE, THEOREMS)
     ctx.proof_phase(MODULE_SEM, THEOREMS_SEM, refutations=["ProbLogProofs.C01.C01_worklist_fuel_insufficient"])
+    # downstream of the grounder: evaluate(loaded d-DNNF) = weighted count over the consistent valuations of the acyclic
+    # ground program (A17), cycle breaking = perfect model (A16), Clark = unique model (A10)
+    ctx.proof_phase("ProbLogProofs.Properties.C10Bridge", ["ProbLogProofs.C10.C01_pipeline_downstream", "ProbLogProofs.C10.C01_pipeline_downstream_atoms",
+                                                            "ProbLogProofs.C10.C01_extractWeights_spec", "ProbLogProofs.C10.C10_evaluate_is_conditional_wmc"])
+    ctx.proof_phase("ProbLogProofs.Properties.C09Unroll", ["ProbLogProofs.C09.C09_breakCycles_correct"])
     drv = ctx.driver("Drivers.Spine")
     if drv is None:
         return ctx.finish("proof")
